@@ -35,6 +35,14 @@ static const char *shared_fens[] = {
     "4k3/8/8/8/8/8/4r3/R3K2R w KQ - 0 1",
 };
 static const int NSF = sizeof(shared_fens) / sizeof(shared_fens[0]);
+// every third shared object is not just loaded but PLAYED into: a repetition with a long clock and a history
+static void load_shared(Position &p, int i) {
+    p.set_fen(shared_fens[i % NSF]);
+    if (i % 3 == 2 && i % NSF == 0) {
+        static const char *cyc[] = {"g1f3", "g8f6", "f3g1", "f6g8"};
+        for (int k = 0; k < 8 + 4 * (i % 5); ++k) p.makemove(std::string(cyc[k % 4]));
+    }
+}
 
 static std::uint64_t mix(std::uint64_t h, std::uint64_t v) {
     h ^= v + 0x9e3779b97f4a7c15ULL + (h << 6) + (h >> 2);
@@ -90,6 +98,8 @@ static std::uint64_t shared_work(const Position &pos) {
     h = mix(h, pos.calculate_hash());
     h = mix(h, std::hash<std::string>{}(pos.get_fen()));
     h = mix(h, pos.is_terminal());
+    h = mix(h, pos.threefold());
+    h = mix(h, pos.is_draw());
     h = mix(h, pos.count_moves());
     for (const auto &m : pos.legal_moves()) h = mix(h, pos.is_legal(m) + std::hash<std::string>{}(pos.move_string(m)));
     return h;
@@ -111,7 +121,7 @@ int main(int argc, char **argv) {
     for (int t = 0; t < nthreads; ++t) {
         th.emplace_back([&, t] {
             // each worker loads its share of the shared objects (own objects at this point), then all start together
-            for (int i = t; i < iters; i += nthreads) shared_pool[static_cast<std::size_t>(i)].set_fen(shared_fens[i % NSF]);
+            for (int i = t; i < iters; i += nthreads) load_shared(shared_pool[static_cast<std::size_t>(i)], i);
             ready++;
             while (ready.load() < nthreads) {}
             for (int i = 0; i < iters; ++i) {
@@ -125,7 +135,8 @@ int main(int argc, char **argv) {
     for (int t = 0; t < nthreads; ++t)
         for (int i = 0; i < iters; ++i) {
             if (got_own[static_cast<std::size_t>(t * iters + i)] != own_work(t * 31 + i, seed + static_cast<std::uint64_t>(t))) mismatches++;
-            const Position reference(shared_fens[i % NSF]);
+            Position reference;
+            load_shared(reference, i);
             if (got_shared[static_cast<std::size_t>(t * iters + i)] != shared_work(reference)) mismatches++;
         }
     std::printf("threads=%d iterations=%d evaluations=%d mismatching_results=%d\n", nthreads, iters, 2 * nthreads * iters, mismatches);
